@@ -879,6 +879,7 @@ def write_evidence(tier, seed, batch, wall, workers, n_viol, klines, det_info, s
         "look_alike_crystal_with_shifted_sites": s["fork:stranger"],
         "handle_dropped_and_garbage_collected": s["fork:drop"],
         "different_crystal_sharing_name_cell_and_group_number": s["fork:other"],
+        "unrelated_crystal_with_heavier_elements": s["fork:heavy"],
         "look_alike_crystal_queried_with_keyword_arguments": s["fork:stranger_kw"],
         "crystal_built_on_the_same_cell_and_group_objects": s["fork:sibling"],
         "crystal_sharing_the_stored_cif_dictionary": s["fork:derive_cifdata"],
